@@ -14,5 +14,5 @@ package finalizers
 //@ func (*jwtFinalizer).calculateCacheKey
 //@   props C11
 //@   nomaprange Write
-//@   ensures shash.n == old(shash.n) + 1 && shash.arg0[old(shash.n)] == sub
-//@   ensures hw.n == old(hw.n) + 5 && hw.arg1[old(hw.n) + 3] == shash.ret0[old(shash.n)]
+//@   ensures shanew.n > old(shanew.n) && shash.n == old(shash.n) + 1 && shash.arg0[old(shash.n)] == sub
+//@   ensures (exists k int :: old(hw.n) <= k && k < hw.n && hw.arg0[k] == shanew.ret0[old(shanew.n)] && hw.arg1[k] == shash.ret0[old(shash.n)])
